@@ -139,6 +139,10 @@ func runProperty(P *Prog, id string, pd *PropDef, opts solveOpts) *checkResult {
 			res.errors = append(res.errors, r.Short+": "+r.Error)
 			continue
 		}
+		if r.Truncated {
+			res.errors = append(res.errors, r.Short+": path cap reached; function not decided")
+			continue
+		}
 		res.fnsVerified = append(res.fnsVerified, r.Short)
 		res.queries += len(r.Obls)
 		for name, a := range aggregate(r.Obls) {
